@@ -399,7 +399,9 @@ func addParents(contentMap map[string]*Content, path string, mtime time.Time) er
 
 func sortedParents(dst string) []string {
 	paths := []string{}
-	base := strings.Trim(dst, "/")
+	// the parents of the destination as it is stored: "../x" is "/x" and has
+	// none, it must not yield a ".." above the root
+	base := strings.Trim(NormalizeAbsoluteFilePath(dst), "/")
 	for {
 		base = filepath.Dir(base)
 		if base == "." {
